@@ -108,6 +108,10 @@ def run(ctx):
     r3_none_normalisation(ctx)
     r4_cardinality(ctx)
     r5_types_and_state(ctx)
+    # what reaches encode() is the vector as last written: the mutable dense rows handed to LinUCB/LinTS are write-through
+    from . import c11
+    c11.write_through(ctx, "C20.R6")
+    r7_length_authority(ctx)
 
 
 def r1_key_domain(ctx):
@@ -340,7 +344,60 @@ def _lossy_reduce(tree):
     c.body.append(ast.parse("def __reduce__(self):\n    return (InteractionsEncoder, ([''.join(p) for p in self._cross_pows.values()],))").body[0])
 
 
+def r7_length_authority(ctx, rule="C20.R7"):
+    """A consumer that pairs encode() outputs with a weight vector by position must size that vector from the encoder itself."""
+    ctx.rule(rule, "the encoder is the only authority for the length of its output: a function that builds an InteractionsEncoder and sizes vectors for its outputs takes the size "
+                   "from len(<encoder>.encode(...)) of a probe -- it never re-derives the number of monomials by a closed formula (map/zip against a shorter weight vector "
+                   "silently drops the trailing monomials)")
+    n = 0
+    for rel, mod in sorted(ctx.model.modules.items()):
+        if rel.startswith("coba/tests") or rel == "coba/encodings.py":
+            continue
+        for fn in [x for x in ast.walk(mod.tree) if isinstance(x, ast.FunctionDef)]:
+            encs = {t.id for st in walk_shallow(fn) if isinstance(st, ast.Assign) and isinstance(st.value, ast.Call) and call_name(st.value) == "InteractionsEncoder"
+                    for t in st.targets if isinstance(t, ast.Name)}
+            if not encs:
+                continue
+            from ..model import qualname
+            qual = qualname(fn)
+            ctx.touch(rel, qual)
+            sized = [st for st in walk_shallow(fn) if isinstance(st, ast.Assign) and isinstance(st.value, ast.Call) and call_name(st.value) == "len" and st.value.args
+                     and isinstance(st.value.args[0], ast.Call) and isinstance(st.value.args[0].func, ast.Attribute) and st.value.args[0].func.attr == "encode"
+                     and unparse(st.value.args[0].func.value) in encs]
+            formulas = [c for c in ast.walk(fn) if isinstance(c, ast.Call) and (call_name(c) or "").split(".")[-1] in ("comb", "perm", "factorial", "binomial")]
+            pairs = [c for c in ast.walk(fn) if isinstance(c, ast.Call) and call_name(c) in ("map", "zip") and any(isinstance(a, ast.Name) and "weight" in a.id for a in c.args)]
+            if not pairs and not sized:
+                continue
+            n += 1
+            ctx.ob(rule, rel, qual, sized[0] if sized else fn, "vectors paired with the encoder's output are sized by len(<encoder>.encode(<probe>)), not by a counting formula",
+                   bool(sized) and not formulas, detail={"formulas": [unparse(f_) for f_ in formulas]}, stmt="output length from the encoder")
+    ctx.floor(rule, "functions pairing InteractionsEncoder outputs with weight vectors", n, 1)
+
+
+def _memo_iter(tree):
+    from ..mutate import find_def
+    cls = find_def(tree, "SparseDense")
+    for st in cls.body:
+        if isinstance(st, ast.Assign) and ast.unparse(st.targets[0]) == "__slots__":
+            st.value = ast.parse("('_values','_length','_sorted')", mode="eval").body
+    init = find_def(tree, "SparseDense.__init__")
+    init.body.append(ast.parse("self._sorted = None").body[0])
+    it = find_def(tree, "SparseDense.__iter__")
+    for st in it.body:
+        if isinstance(st, ast.Assign) and ast.unparse(st.targets[0]) == "sort":
+            i = it.body.index(st)
+            it.body[i:i + 1] = ast.parse("sort = self._sorted\nif sort is None: sort = self._sorted = sorted(self._values.items())").body
+            break
+    else:
+        raise M.TargetMissing("sort = sorted(...) in SparseDense.__iter__")
+    si = find_def(tree, "SparseDense.__setitem__")
+    si.body.insert(len(si.body) - 1, ast.parse("if key not in self._values: self._sorted = None").body[0])
+
+
 CONTROLS = [
+    ("monomials counted by a formula", "coba/environments/synthetics.py", M.replace_expr("LinearSyntheticSimulation.read", "len(feats_encoder.encode(x=[1] * n_context_features, a=[1] * n_action_features))",
+        "sum(__import__('math').comb(n_context_features, f.count('x')) * __import__('math').comb(n_action_features, f.count('a')) for f in reward_features)"), "C20.R7"),
+    ("SparseDense memoises its sorted items", "coba/pipes/rows.py", _memo_iter, "C20.R6"),
     ("term table keyed by the full interaction list", ENC, M.replace_expr("InteractionsEncoder.__init__", "zip(str_interactions, map(OrderedDict, map(Counter, str_interactions)))", "zip(interactions, map(OrderedDict, map(Counter, str_interactions)))"), "C20.R2"),
     ("encoder rebuilt from its namespace letters on copy", ENC, _lossy_reduce, "C20.R5"),
     ("_pows remembers its last argument", ENC, _memo_pows, "C20.R5"),
